@@ -136,7 +136,7 @@ def gen_case(rng, idx, nmax):
             B[:, j] = 0
             zero_cols.append(j)
         else:
-            B[:, j] *= 10.0 ** rng.uniform(-6, 6)
+            B[:, j] *= 10.0 ** (rng.uniform(-6, 6) if u > 0.24 else -rng.uniform(45, 140))   # 12 decades; some tiny columns
             if u > (0.85 if m == 1 else 0.7) and n > 1:       # few-eigenvector right-hand side: low grade
                 w, V = np.linalg.eigh(A)
                 sel = rng.sample(range(n), rng.randint(1, min(3, n)))
@@ -449,7 +449,7 @@ class Checker:
                     bad.append({"clause": "zero", "max_iters": k, "column": j})
         # "stops as soon as, not before" against the TRUE residual of the iterates (slack for rounding).
         # A zero column with x0 != 0 has no meaningful relative tolerance (|b| = 0): the code iterates on
-        # x0 / 1e-40 and returns 0; such cases are left out of this clause.
+        # (0, x0) without normalisation and returns 0; such cases are left out of this clause.
         degenerate = any(mult[j] == 0 and np.any(X0[:, j] != 0) for j in range(m))
         slack = 200 * np.finfo(float).eps * kap * n
         live = [j for j in range(m) if mult[j] > 0]
@@ -684,16 +684,19 @@ def _work(args):
 
 
 def tiny_rhs_probe():
-    """0 < |b| < 1e-40: do_safe_div divides by the clamped 1e-40 but the result is multiplied by |b|"""
+    """right-hand sides of tiny norm (fixed in /repo by e0cb27f: exact normalisation instead of the 1e-40 clamp);
+    below ~1e-154 the squares inside np.linalg.norm underflow and the column is taken for a zero column"""
     A = np.diag([2.0, 3.0])
     Aop = cola.PSD(cola.ops.Dense(A))
     b = np.array([1.0, 1.0])
     out = {}
-    for s in (1e-30, 1e-45):
+    for s in (1e-30, 1e-45, 1e-140, 1e-200):
         x, info = real_cg(Aop, s * b, None, None, 1e-10, 10)
         out[str(s)] = {"x/s": [float(v) for v in np.asarray(x) / s], "iterations": int(info["iterations"])}
     out["expected x/s"] = [0.5, 1.0 / 3.0]
-    out["defect_present"] = bool(np.linalg.norm(np.array(out["1e-45"]["x/s"]) - np.array([0.5, 1 / 3])) > 1e-6)
+    ok = lambda k: bool(np.linalg.norm(np.array(out[k]["x/s"]) - np.array([0.5, 1 / 3])) < 1e-6)
+    out["clamp_defect_present (|b| < 1e-40)"] = not (ok("1e-45") and ok("1e-140"))
+    out["norm_underflow_returns_zero (|b| < 1e-154, IEEE only)"] = not ok("1e-200")
     return out
 
 
@@ -710,7 +713,7 @@ def run(ctx):
     t0 = time.time()
     if ctx.replay:
         rp = json.load(open(ctx.replay))
-        cases = [rp["case"]] if "case" in rp else []
+        cases = [rp["case"]] if rp.get("case") else []
         for i, c in enumerate(cases):
             c["id"] = i
     else:
@@ -760,15 +763,20 @@ def run(ctx):
     if gate_err is not None and not ctx.violations:
         common.violation(ctx, {"broken": f"Lean gate of {MODULE}", "detail": gate_err[-3000:]}, no_input=True)
     tiny = tiny_rhs_probe()
-    if tiny["defect_present"] and "tiny-rhs-norm" in common.known_clauses(ctx.prop):
-        common.known_finding(ctx, "tiny-rhs-norm", "0 < |b| < 1e-40: system divided by the clamped 1e-40, result multiplied by |b|")
+    if tiny["clamp_defect_present (|b| < 1e-40)"]:
+        if "tiny-rhs-norm" in common.known_clauses(ctx.prop):
+            common.known_finding(ctx, "tiny-rhs-norm", "0 < |b| < 1e-40: system divided by the clamped 1e-40, result multiplied by |b|")
+        else:
+            A2 = np.diag([2.0, 3.0])
+            common.violation(ctx, {"case": None, "violated": [{"clause": "scale / optimal", "detail": "cg(diag(2,3), 1e-45*[1,1]) / 1e-45 != [1/2, 1/3]", "probe": tiny}],
+                                   "how": "fixed probe: right-hand side of norm below 1e-40 (the 1e-40 clamp of the normalisation is back)"})
     st = chk.stats
     cov = {
         "evaluations": st["evaluations"],
         "distinct_nontrivial": len(st["nontrivial"]),
         "rule": ("HPD systems A = Q diag(lambda) Q^H from one random.Random(seed) stream: real and complex, n = 1..%d, kappa in {1, 10, 1e3}, "
                  "spectra geometric / linear / clustered / exactly repeated / two-valued, operator scale 1e-2..1e2, 1-4 columns with norms "
-                 "10^U(-6,6), zero columns, few-eigenvector columns, x0 in {None, random, exact solution}, P in {None, Jacobi (Diagonal), dense SPD}, "
+                 "10^U(-6,6) (12 decades) or tiny 10^-U(45,140), zero columns, few-eigenvector columns, x0 in {None, random, exact solution}, P in {None, Jacobi (Diagonal), dense SPD}, "
                  "tol in {1e-12..1e-1}, max_iters = 2n (50%%) or random in 0..2n; the real cg is run for EVERY max_iters = 0..K (plus two "
                  "rounding-equivalent variants each, a counting-operator run, inv(A, CG) for a quarter, scaled right-hand sides) and each run is "
                  "compared with the model's trace; evaluations = runs of the real cg; distinct = canonical JSON of the bit-exact inputs; "
@@ -786,12 +794,13 @@ def run(ctx):
         "dist_tol": st["tol"], "stop_reasons": st["stop"], "model_branches_hit": st["branches"],
         "samples": st["samples"], "lean_driver_wall_s": round(t_lean, 1),
         "real_violations": n_real_viol, "correspondence_disagreements": n_corr,
-        "observations": {"tiny_rhs_norm_below_1e-40 (outside the stream; hypothesis hb of C12_optimal / hB of C12_scale)": tiny},
+        "observations": {"tiny_rhs_norms (stream covers 1e-140..1e6; fixed probe)": tiny},
     }
     common.write_evidence(ctx, gate, cov, assumptions=[
         "theorems are about exact real/complex arithmetic (RCLike instance of the model); the IEEE run of the same model text is what the correspondence compares",
-        "C12_optimal / C12_scale hold for columns with |b| >= 1e-40 while no guard (1e-40 thresholds) is active; for 0 < |b| < 1e-40 the code and the model deviate from the property (see observations)",
-        "a zero column with x0 != 0 has no relative tolerance (|b| = 0): the code iterates on x0 / 1e-40 and returns exactly 0; the stops-as-soon-as clause leaves such cases out",
+        "C12_optimal holds for non-zero columns while no guard of take_cg_step (1e-40 thresholds, relative to |b|) is active; C12_scale and C12_zero are unconditional",
+        "IEEE range: below |b| ~ 1e-154 the squares inside np.linalg.norm underflow and a non-zero column is treated as zero (returns 0); outside the exact-arithmetic model, recorded under observations",
+        "a zero column with x0 != 0 has no relative tolerance (|b| = 0): the code iterates on (0, x0) un-normalised and returns exactly 0; the stops-as-soon-as clause leaves such cases out",
         "AdaNysPrecond (randomised Nystrom preconditioner) is not exercised; any Hermitian positive-definite P is covered by the theorems and dense SPD P by the stream",
         "condition numbers above 1e3 and sizes above 12 (quick) / 40 (thorough) are covered by the theorems only; the Krylov-optimum oracle is applied at every step for kappa_eff <= 100 and at steps <= 5 above",
     ])
